@@ -41,7 +41,7 @@ TIME_BUDGET = {"quick": 400, "thorough": 3400}
 CASE_TIMEOUT = {"quick": 300, "thorough": 900}
 
 FORMS = ["raw", "runner_ds", "raw", "to_ds", "raw", "to_df"]
-KINDS = {"raw": ["float", "array:3", "bool", "str", "tuple:2", "list:2x2", "int", "dataset:2", "mixed"],
+KINDS = {"raw": ["float", "array:3", "bool", "str", "tuple:2", "list:2x2", "int", "dataset:2", "mixed", "iarray:3", "barray:2", "iarray:2x2"],
          "runner_ds": ["float", "array:3", "bool", "str", "dataset:2", "int"],
          "to_ds": ["float", "array:3", "dataset:2", "multi:s,a3"],
          "to_df": ["float", "str", "multi:s,s", "int"]}
